@@ -2,6 +2,7 @@
 package main
 
 import (
+	"bytes"
 	"fmt"
 	"math/rand"
 	"runtime"
@@ -57,10 +58,10 @@ func (s *slowStore) Save(id fix.StorageID, m simplefixgo.SendingMessage, seq int
 }
 
 type sendRec struct {
-	g          int
-	call, ret  int64
-	seq        int
-	err        error
+	g         int
+	call, ret int64
+	seq       int
+	err       error
 }
 
 const layout = "20060102-15:04:05.000"
@@ -178,15 +179,27 @@ func scenario(c *vk.Ctx, i int) {
 	desc := fmt.Sprintf("%s reusedObjects=%v flood=%v G=%d M=%d buf=%d chatty=%v storeDelayMaxUs=%d peerReadsEvery=%v c0=%d GOMAXPROCS=%d #%d", role, reuse, flood, G, M, buf, chatty, st.maxUs, slowPeer, c0, runtime.GOMAXPROCS(0), i)
 	_ = desc
 	replay := map[string]interface{}{"scenario": desc, "index": i, "seed": c.Seed}
+	holdCh := make(chan struct{})
 	f, err := rig.StartFull(rig.FullCfg{Role: role, HeartBtInt: 1, BufSize: buf, Counter: st, Messages: st, Notify: true, Label: fmt.Sprintf("c05-%d", i),
 		AfterRun: func(h *simplefixgo.DefaultHandler, s *session.Session) {
-			h.HandleOutgoing(simplefixgo.AllMsgTypes, func(simplefixgo.SendingMessage) bool { st.nap(); return true })
+			h.HandleOutgoing(simplefixgo.AllMsgTypes, func(m simplefixgo.SendingMessage) bool {
+				st.nap()
+				if b, _ := m.ToBytes(); bytes.Contains(b, []byte("262=hold-me")) {
+					<-holdCh // a send that is still in flight (delayed in a handler) when its connection is lost
+				}
+				return true
+			})
 		}})
 	if err != nil {
 		c.Inconclusive("rig: " + err.Error())
 		return
 	}
 	defer f.Shutdown()
+	defer func() {
+		if holdCh != nil {
+			close(holdCh)
+		}
+	}()
 	var l *rig.Link
 	if role == rig.Acceptor {
 		if l, err = f.Connect("c05"); err != nil {
@@ -375,6 +388,13 @@ func scenario(c *vk.Ctx, i int) {
 	// a later session on the same counter store continues the numbering
 	if role == rig.Acceptor && i%3 == 0 {
 		last := c0 + len(frames)
+		lateSend := (i/6)%2 == 1
+		if lateSend {
+			// one more send on the first session: it draws its number, is saved, and is then held in an outgoing handler
+			go func() { _ = l.S.Send(fixgen.CreateMarketDataRequestReject("hold-me")) }()
+			time.Sleep(30 * time.Millisecond)
+			c.Count("second_sessions_with_a_late_failing_send_of_the_first", 1)
+		}
 		// messages may still have been written between the snapshot and now (heartbeats): take a fresh snapshot after closing the link
 		l.Conn.Close()
 		time.Sleep(100 * time.Millisecond)
@@ -387,8 +407,14 @@ func scenario(c *vk.Ctx, i int) {
 			// nothing that session left behind may draw numbers from the shared store meanwhile
 			for k := 0; k < 3; k++ {
 				_ = l2.S.Send(fixgen.CreateMarketDataRequestReject("second-" + strconv.Itoa(k)))
-				if k < 2 && i%6 == 0 {
+				if k < 2 && (i/6)%2 == 0 {
 					time.Sleep(1300 * time.Millisecond)
+				}
+				if k == 1 && lateSend {
+					// now the held send of the first session is let go: it fails (its handler has stopped)
+					close(holdCh)
+					holdCh = nil
+					time.Sleep(30 * time.Millisecond)
 				}
 			}
 			time.Sleep(50 * time.Millisecond)
@@ -405,7 +431,7 @@ func main() {
 	// one GOMAXPROCS setting per shard
 	gmp := []int{16, 1, 2}[c.Shard%3]
 	runtime.GOMAXPROCS(gmp)
-	c.Rule("session i: either role on the full stack (real Initiator.Serve / Acceptor.ListenAndServe goroutines on a scripted net.Conn), logon by the scripted peer with N=1 (in half of the acceptor groups preceded by a Logon that is refused: the Reject is then message c0+1 and carries the mirrored identifiers; every third group of four: its Logon carries ResetSeqNumFlag=Y; numbering must then still be consecutive from the session's first message, from 1 if the session itself announces a reset), then G in {1,2,4,8,16} goroutines x M in 3..16 application sends (a fresh message object per send, or in every second pair of scenarios one object per goroutine sent M times) in bursts spread over 2.6 s (so that heartbeat and test-request timers expire in between), while the peer injects TestRequests and damaged messages (replies and rejects originate on the inbound goroutine) or stays silent; handler buffer {0,1,10}; the peer reads instantly or takes 100/300 us per message (so that bursts fill the buffer); a store decorator sleeps 0..2 ms after the counter increment, inside Save and in an outgoing handler; one GOMAXPROCS value per shard {16,1,2}; optional second session on the same counter store (in half of those the second session goes on sending for 2.6 s after the first connection was lost). Oracle on the peer-side capture (reference splitter): 34 = c0+1,c0+2,... in wire order; 49/56; 52 parses, never goes backwards along the wire, is not later than the write, lies within [call,return] of its Send; porcupine counter model over the Send operations. distinct = (role, interleaving signature of source kinds on the wire, G, M, buffer); non-trivial = at least 2 source kinds on the wire")
+	c.Rule("session i: either role on the full stack (real Initiator.Serve / Acceptor.ListenAndServe goroutines on a scripted net.Conn), logon by the scripted peer with N=1 (in half of the acceptor groups preceded by a Logon that is refused: the Reject is then message c0+1 and carries the mirrored identifiers; every third group of four: its Logon carries ResetSeqNumFlag=Y; numbering must then still be consecutive from the session's first message, from 1 if the session itself announces a reset), then G in {1,2,4,8,16} goroutines x M in 3..16 application sends (a fresh message object per send, or in every second pair of scenarios one object per goroutine sent M times) in bursts spread over 2.6 s (so that heartbeat and test-request timers expire in between), while the peer injects TestRequests and damaged messages (replies and rejects originate on the inbound goroutine) or stays silent; handler buffer {0,1,10}; the peer reads instantly or takes 100/300 us per message (so that bursts fill the buffer); a store decorator sleeps 0..2 ms after the counter increment, inside Save and in an outgoing handler; one GOMAXPROCS value per shard {16,1,2}; optional second session on the same counter store (in half of those the second session goes on sending for 2.6 s after the first connection was lost; in the other half a send of the first session that was held in an outgoing handler fails while the second session is sending). Oracle on the peer-side capture (reference splitter): 34 = c0+1,c0+2,... in wire order; 49/56; 52 parses, never goes backwards along the wire, is not later than the write, lies within [call,return] of its Send; porcupine counter model over the Send operations. distinct = (role, interleaving signature of source kinds on the wire, G, M, buffer); non-trivial = at least 2 source kinds on the wire")
 	c.Assume("precondition of the statement: no handler refuses, the stores do not fail; clocks: wall clock without steps during a 3 s scenario (2 ms tolerance)")
 	n := c.Pick(24, 500) // per shard
 	var wg sync.WaitGroup
